@@ -36,6 +36,11 @@ type Case struct {
 	EndToEnd bool       `json:"end_to_end"`
 	ViewBox  [4]ops.F32 `json:"viewbox"`
 	Rect     [4]int     `json:"rect"`
+	// Dyadic: matrix entries, pixel scale and stop offsets are such that the
+	// offset of every pixel is computed exactly in float64 (linear), or exactly
+	// wherever gy is 0 (radial): no interval is needed there, so offsets that
+	// land exactly on 0 or 1 are inside [0,1].
+	Dyadic bool `json:"dyadic,omitempty"`
 }
 
 func parseColor(s string) color.RGBA {
@@ -127,12 +132,16 @@ func checkGradient(c Case) error {
 			o = math.Hypot(gx, gy)
 			delta = dx + dy + 8*eps64*o
 		}
+		disc := delta
+		if c.Dyadic && (!c.Radial || m[3]*px+m[4]*py+m[5] == 0) {
+			disc = 0 // the offset is exact: exactly 0 or 1 lies inside [0,1]
+		}
 		rr, gg, bb, aa := at(p[0], p[1]).RGBA()
 		got := [4]float64{float64(rr), float64(gg), float64(bb), float64(aa)}
 		if rr > aa || gg > aa || bb > aa {
 			return harness.Violatef("c15/not-premultiplied", "pixel (%d,%d) offset %v: colour %v is not a valid premultiplied colour", p[0], p[1], o, got)
 		}
-		cands := spec.GradientCandidates(stops16, c.Spread, o, delta)
+		cands := spec.GradientCandidates2(stops16, c.Spread, o, disc, delta)
 		ok := false
 		for _, cd := range cands {
 			w := [4]float64{cd.R, cd.G, cd.B, cd.A}
@@ -203,6 +212,7 @@ func genStops(t *rapid.T) []Stop {
 
 func genCase(t *rapid.T) (Case, []string) {
 	var c Case
+	inexactTarget := true
 	var labels []string
 	c.Radial = rapid.Bool().Draw(t, "radial")
 	c.Spread = uint8(rapid.IntRange(0, 3).Draw(t, "spread"))
@@ -246,6 +256,7 @@ func genCase(t *rapid.T) (Case, []string) {
 		}
 		// target offset: a stop, an integer, or a dyadic interior/outside point
 		var target float64
+		inexactTarget = false
 		switch rapid.IntRange(0, 4).Draw(t, "target") {
 		case 0:
 			s := c.Stops[rapid.IntRange(0, len(c.Stops)-1).Draw(t, "stop")]
@@ -264,6 +275,7 @@ func genCase(t *rapid.T) (Case, []string) {
 			labels = append(labels, "far-outside")
 		default:
 			target = rapid.Float64Range(-3, 4).Draw(t, "any")
+			inexactTarget = true
 		}
 		if c.Radial {
 			target = math.Abs(target)
@@ -316,6 +328,7 @@ func genCase(t *rapid.T) (Case, []string) {
 		c.Matrix[2] = float64(float32(rapid.Float64Range(-3, 3).Draw(t, "c")))
 		c.Matrix[5] = float64(float32(rapid.Float64Range(-3, 3).Draw(t, "f")))
 	}
+	c.Dyadic = dyadic && exact && !inexactTarget
 	for i := 0; i < npix; i++ {
 		c.Pixels = append(c.Pixels, [2]int{rapid.IntRange(-2000, 2000).Draw(t, "px"), rapid.IntRange(-2000, 2000).Draw(t, "py")})
 	}
